@@ -4,7 +4,7 @@ CONSTANTS
   NetName = "robustirc.net"
   MaxN = 2
   Families = {"reg", "member", "mode", "talk", "oper", "services", "entry", "addr", "time"}
-  Prologues = {2, 3, 4, 5, 6}
+  Prologues = {2, 3, 4, 5, 6, 7}
 INVARIANT NoFailure
 VIEW View
 CHECK_DEADLOCK FALSE
